@@ -37,6 +37,7 @@ def runs_for(pid, tier, seed):
             R('11 projects, ties', fm.twodigit_projects(TieMode='all', CritLists=none + [(fm.C('maxsize'),)], ReportCap=2, PCs={False, True}),
               simulate=1000 if q else 12000, invariants=fm.BIG_INVARIANTS),
             R('lists of four', fm.four_long(CritLists=some, ReportCap=4), simulate=1500 if q else 20000),
+            R('three lecturers', fm.lec3(ReportCap=4, **fm.build(0, 3)), simulate=2000 if q else 25000),
         ]
         if not q:
             runs += [R('shared3', fm.shared3(CritLists=none, ReportCap=64, CheckIP=True)),
@@ -76,6 +77,7 @@ def runs_for(pid, tier, seed):
             R('wide x singles', fm.wide(CritLists=sg), simulate=4000 if q else 60000),
             R('wide-hr x singles', fm.wide(na=2, CritLists=sg), simulate=1500 if q else 20000),
             R('lists of four x singles', fm.four_long(CritLists=sg), simulate=2500 if q else 30000),
+            R('three lecturers x singles', fm.lec3(CritLists=sg), simulate=2500 if q else 30000),
         ]
         if not q:
             runs += [R('shared3 x singles', fm.shared3(CritLists=sg), simulate=40000),
@@ -107,6 +109,7 @@ def runs_for(pid, tier, seed):
             R('four students, short lists', fm.four_short(CritLists=crit), simulate=3000 if q else 40000),
             R('four hospitals/residents', fm.four_short(NA=2, NP=2, CritLists=crit), simulate=1500 if q else 20000),
             R('lists of four', fm.four_long(CritLists=crit, Sided={'two'}, Stabs={True}, OrderMode='all'), simulate=1500 if q else 20000),
+            R('three lecturers', fm.lec3(CritLists=crit, Sided={'two'}, Stabs={True}), simulate=2000 if q else 25000),
         ]
         return runs
     if pid == 'C11':
@@ -118,6 +121,7 @@ def runs_for(pid, tier, seed):
             R('11 projects (two-digit ids)', fm.twodigit_projects(CritLists=none + [(fm.C('maxsize'),)], ReportCap=6), simulate=1200 if q else 15000),
             R('lists of four, every tie structure', fm.four_long(CritLists=none + [(fm.C('maxsize'),)], ReportCap=8, PCs={True}, Stabs={False}),
               simulate=1500 if q else 20000),
+            R('three lecturers', fm.lec3(CritLists=none, ReportCap=16, PCs={True}, Stabs={False}), simulate=1500 if q else 20000),
             R('10 students (two-digit ids)', fm.twodigit_students(CritLists=[(fm.C('maxsize'),), (fm.C('maxsize'), fm.C('mincost'))], ReportCap=3),
               simulate=400 if q else 5000, invariants=['FamilyWellFormed', 'ReportedValid', 'StatusIffFeasible', 'Export']),
         ]
